@@ -620,6 +620,9 @@ func streamSchema(o *Out, rng *rand.Rand, thorough bool, _ []string) {
 					if !thorough && n != 2 && (ctor == "base" || ctor == "batch" || ctor == "streaming") {
 						continue
 					}
+					if len(prefix) >= 4 && n != 2 {
+						continue // the longest sequences with one chunk size only (a quarter of an hour otherwise)
+					}
 					run(o, fmt.Sprintf("hist %s %d - | %s | %s", ctor, n, strings.Join(pool, " "), strings.Join(ops, " ")))
 				}
 			}
